@@ -77,7 +77,10 @@ pub fn run_mode(ctx: &mut Ctx, mode: Mode) -> Verdict {
         }
         chunks.push(stream[at..].to_vec());
     }
-    let ndrops = if mode != Mode::DropReaders { 0 } else if n >= 3 && ctx.pick(3) == 0 { 2 } else { 1 };
+    // one DropReaders run in six abandons something else: the client calls close() while its requests are
+    // outstanding and drops the reply future that close() returns (it owns the session) without polling it
+    let abandon_close = mode == Mode::DropReaders && ctx.chance(1, 6);
+    let ndrops = if mode != Mode::DropReaders || abandon_close { 0 } else if n >= 3 && ctx.pick(3) == 0 { 2 } else { 1 };
     let mut drops: Vec<(usize, usize)> = Vec::new(); // (before chunk index, request)
     let first = ctx.pick(n);
     if ndrops >= 1 {
@@ -89,6 +92,11 @@ pub fn run_mode(ctx: &mut Ctx, mode: Mode) -> Verdict {
         drops.push((ctx.pick(chunks.len() + 1), second));
     }
     let mut steps = vec![Step::Chunk(hello_msg(&[CAP_BASE10, CAP_JUNOS])), Step::WaitClientMessages(1 + n), Step::SleepMs(1)];
+    if abandon_close {
+        // the close-session request has arrived, and the client has had time to drop the future
+        steps.push(Step::WaitClientMessages(2 + n));
+        steps.push(Step::SleepMs(2));
+    }
     for (i, c) in chunks.iter().enumerate() {
         for (at, k) in &drops {
             if *at == i {
@@ -104,7 +112,9 @@ pub fn run_mode(ctx: &mut Ctx, mode: Mode) -> Verdict {
             steps.push(Step::SleepMs(1));
         }
     }
-    steps.push(Step::WaitClientMessages(2 + n));
+    if !abandon_close {
+        steps.push(Step::WaitClientMessages(2 + n));
+    }
     steps.push(Step::Chunk(reply_msg(n + 1, 130)));
     steps.push(Step::SleepMs(2));
     let big_request = if mode == Mode::BigRequest { 70_000 + ctx.pick(190_000) } else { 0 };
@@ -113,13 +123,21 @@ pub fn run_mode(ctx: &mut Ctx, mode: Mode) -> Verdict {
     if slow_peer {
         ctx.count("fault.small_socket_buffers_and_slow_peer");
     }
-    let label = format!("{mode:?} (request #0 carries {big_request} extra bytes, slow peer {slow_peer}): {n} requests, delivery order {order:?}, {} chunks {:?}, drops (before chunk, request) {drops:?}", chunks.len(), chunks.iter().map(Vec::len).collect::<Vec<_>>());
-    let sc = Scenario { kind, steps, requests: n, extra_request: true, label, bad_credentials: false, password: crate::rsim::SSH_PASSWORD.to_string(), big_request, slow_peer };
+    let label = format!(
+        "{mode:?}{} (request #0 carries {big_request} extra bytes, slow peer {slow_peer}): {n} requests, delivery order {order:?}, {} chunks {:?}, drops (before chunk, request) {drops:?}",
+        if abandon_close { " + close() reply future abandoned" } else { "" },
+        chunks.len(),
+        chunks.iter().map(Vec::len).collect::<Vec<_>>()
+    );
+    let sc = Scenario { kind, steps, requests: n, extra_request: !abandon_close, label, bad_credentials: false, password: crate::rsim::SSH_PASSWORD.to_string(), big_request, slow_peer, ssh_setup: Default::default(), abandon_close };
     ev!(ctx, "scenario {}/{}", kind.name(), sc.label);
     let o = run_scenario(ctx, &sc);
     ev!(ctx, "establish {:?} results {:?} dropped {:?} extra {:?} harness {:?}", o.establish, o.results, o.dropped, o.extra, o.harness_error);
     ctx.sim_time_ns = o.virt_ns;
-    ctx.nontrivial = !o.dropped.is_empty() || mode != Mode::DropReaders;
+    ctx.nontrivial = !o.dropped.is_empty() || mode != Mode::DropReaders || abandon_close;
+    if abandon_close {
+        ctx.count("fault.close_reply_future_dropped_unpolled");
+    }
     ctx.count(&format!("runs.real-transport.{}", kind.name()));
     ctx.count_n("fault.reply_future_dropped_on_real_transport", o.dropped.len() as u64);
     let t = kind.name();
@@ -156,7 +174,13 @@ pub fn run_mode(ctx: &mut Ctx, mode: Mode) -> Verdict {
     } else {
         ("wrong-reply", "request-failed", "caller-waits-forever", "later-request-fails")
     };
-    let after = if drops_mode { format!(" after the reply futures of {:?} were dropped", o.dropped) } else { String::new() };
+    let after = if abandon_close {
+        " after the reply future returned by close() was dropped".to_string()
+    } else if drops_mode {
+        format!(" after the reply futures of {:?} were dropped", o.dropped)
+    } else {
+        String::new()
+    };
     for (k, r) in o.results.iter().enumerate() {
         let tag = format!("TAG-{}-", k + 1);
         let dropped = o.dropped.contains(&k);
@@ -171,6 +195,7 @@ pub fn run_mode(ctx: &mut Ctx, mode: Mode) -> Verdict {
         }
     }
     match &o.extra {
+        None if abandon_close => {}
         Some(Res::Ok(v)) if v.contains(&format!("TAG-{}-", n + 1)) => {}
         Some(Res::Err(_)) if mode == Mode::HostileCoalesced => {}
         other => return Verdict::violation(format!("{c_unusable}/{t}"), format!("{}: the request issued afterwards resolved to {other:?}{after}", sc.label)),
